@@ -384,6 +384,22 @@ pub fn reshift_edge_streams(rng: &mut Rng, all: bool) -> Vec<(String, Vec<u8>)> 
     v
 }
 
+/// The deepest chain walks the estimator accepts: a run of one byte written as literals, then a
+/// 3-byte reference d bytes back - every position in between is a candidate on the same chain, so
+/// the estimated chain budget is d (for d around 4096, the largest value it does not refuse)
+pub fn deep_chain_streams() -> Vec<(String, Vec<u8>)> {
+    let mut v = Vec::new();
+    for d in [4094usize, 4095, 4096, 4097] {
+        let n = 4200usize;
+        let text = vec![b'a'; n + 3 + 5];
+        let mut toks: Vec<(usize, usize)> = (0..n).map(|_| (1, 0)).collect();
+        toks.push((3, d));
+        toks.extend((0..5).map(|_| (1usize, 0usize)));
+        v.push((format!("deep-chain/d{}", d), encode_fixed(&text, &toks, usize::MAX)));
+    }
+    v
+}
+
 /// Blocks with more tokens than fit 16 bits (and, once, 20 bits): literal-only fixed Huffman blocks
 /// of 70000 tokens, twice in a row, 100 then 65636 (equal modulo 2^16), and one of 2^20 + 2^16 + 4
 pub fn big_block_streams(rng: &mut Rng, with_million: bool) -> Vec<(String, Vec<u8>)> {
